@@ -339,6 +339,12 @@ func runC06Case(c *Ctx, pki *tlsPKI, cs c06Case, idx int, sample func(interface{
 		runC06Std(c, pki, cs, scfg, ccfg, cls, exp, w)
 		return
 	}
+	if idx%3 == 1 {
+		// every third case runs on copies made by Config.Clone(): a copy must behave exactly like the original
+		ccfg, scfg = ccfg.Clone(), scfg.Clone()
+		w["through"] = "Config.Clone()"
+		rep.Count("cases_run_through_Config.Clone", 1)
+	}
 	out := handshakePair(ccfg, scfg, nil)
 	w["client_error"], w["server_error"] = errStr(out.cli.err), errStr(out.srv.err)
 	for side, e := range map[string]*endResult{"client": &out.cli, "server": &out.srv} {
